@@ -33,7 +33,7 @@ func init() {
 			{ID: "R04.11", Template: "T-SIBLING", Text: "wazevo: the reference of an imported function is the defining module's function instance (genuine defect found and fixed)", Min: 1},
 			{ID: "R04.12", Template: "T-MUSTPASS", Text: "active element segments write every slot they cover, null initialisers included (known finding)", Min: 1},
 			{ID: "R04.14", Template: "T-CONSULT", Text: "GlobalInstance methods read the captured value only after consulting the owner (genuine defect found and fixed: String)", Min: 1},
-			{ID: "R04.15", Template: "T-REPR", Text: "i32 constant-expression results (segment offsets) are used as unsigned 32-bit values (genuine defect found and fixed)", Min: 2},
+			{ID: "R04.15", Template: "T-REPR", Text: "i32 constant-expression results (segment offsets) are used as unsigned 32-bit values (genuine defect found and fixed)", Min: 1},
 			{ID: "R04.16", Template: "T-ORDER", Text: "instantiation applies active element segments before active data segments (known finding)", Min: 1},
 			{ID: "R04.1", Template: "T-WHOWRITES", Text: "import slots receive the exporter's object itself", Min: 3},
 			{ID: "R04.2", Template: "T-CONSULT", Text: "per-kind link-time type match is complete", Min: 9},
